@@ -18,8 +18,12 @@
 EXTENDS Naturals, Sequences, FiniteSets, TLC
 CONSTANTS Dev
 Codecs == {"none", "gzip", "bz2", "lz4", "zstd"}
-Containers == {"stream", "avro", "json", "text", "garbage", "empty"}
-Namings == {"ext", "neutral", "fileobj"}
+Containers == {"stream", "avro", "json", "text", "garbage", "empty", "junkmagic"}     \* junkmagic: non-stream bytes that contain the stream magic at the wrong place
+\* "stdin": standard input without a name (codec and container sniffed); "stdin_scheme": standard input named by a URL
+\* scheme (stream://- , avro://-): codec sniffed, container from the scheme; "fileobj_offset": a file object positioned
+\* behind a preamble that is not part of the source
+Namings == {"ext", "neutral", "fileobj", "stdin", "stdin_scheme", "fileobj_offset"}
+Sniffed(n) == n \in {"fileobj", "stdin", "fileobj_offset"}
 MagicLen(c) == CASE c = "gzip" -> 2 [] c = "bz2" -> 3 [] c = "lz4" -> 4 [] c = "zstd" -> 4 [] c = "none" -> 0
 ContainerMagicLen(c) == CASE c = "stream" -> 19 [] c = "avro" -> 3 [] OTHER -> 0     \* 4 length bytes + bin8 header + RECORDSTREAM\n ; "Obj"
 VARIABLES codec, container, naming, peeklen
@@ -33,21 +37,21 @@ CodecSeen == IF naming = "ext" THEN codec                                     \*
              ELSE IF peeklen >= MagicLen(codec) \/ "TrustShortPeek" \in Dev THEN codec ELSE "missed"   \* magic sniffing
 \* ---- container as seen by the reader ----
 AdapterSeen == IF CodecSeen = "missed" THEN "none"
-               ELSE IF naming = "ext" THEN (IF container \in {"stream", "avro", "json"} THEN container ELSE "stream")   \* by extension / scheme
+               ELSE IF naming \in {"ext", "stdin_scheme"} THEN (IF container \in {"stream", "avro", "json"} THEN container ELSE "stream")   \* by extension / scheme
                ELSE IF naming = "neutral" THEN "stream"                          \* no extension: the default adapter
                ELSE IF codec = "none" /\ peeklen < ContainerMagicLen(container) /\ "TrustShortPeek" \notin Dev THEN "none"   \* the same short peek
                ELSE IF container = "avro" THEN "avro" ELSE IF container = "stream" THEN "stream" ELSE "none"      \* second peek: magic
 Outcome == IF AdapterSeen = "none" THEN "refused"
-           ELSE IF AdapterSeen = container THEN "records" ELSE "refused"        \* the adapter rejects bytes that are not its format
+           ELSE IF AdapterSeen = container THEN "records" ELSE "refused"        \* (junkmagic is sniffed as "stream" and then rejected by the header check)        \* the adapter rejects bytes that are not its format
 \* ---- C11 ----
 \* what the property promises
-Promised == IF container \in {"text", "garbage", "empty"} THEN "refused"
-            ELSE IF container = "json" THEN (IF naming = "ext" THEN "records" ELSE "refused")      \* JSON is only reachable by extension / scheme
+Promised == IF container \in {"text", "garbage", "empty", "junkmagic"} THEN "refused"
+            ELSE IF container = "json" THEN (IF naming \in {"ext", "stdin_scheme"} THEN "records" ELSE "refused")      \* JSON is only reachable by extension / scheme
             ELSE IF container = "avro" /\ naming = "neutral" THEN "refused"                      \* for paths the container follows the extension
             ELSE "records"
 Transparent == (peeklen >= 19) => Outcome = Promised
 \* input that is none of these is refused -- never misread as records
-RefusesJunk == container \in {"text", "garbage", "empty"} => Outcome = "refused"
+RefusesJunk == container \in {"text", "garbage", "empty", "junkmagic"} => Outcome = "refused"
 \* the codec is ALWAYS recognised from the leading bytes (fails as built when a peek delivers less than the magic)
-AlwaysRecognised == (naming = "fileobj" /\ container \in {"stream", "avro"}) => Outcome = "records"
+AlwaysRecognised == (Sniffed(naming) /\ container \in {"stream", "avro"}) => Outcome = "records"
 =============================================================================
